@@ -14,7 +14,7 @@ import storegen
 from checks import storecheck as sc
 
 LEVEL = "model_checking"
-CLAUSES = {"C11incons", "C11window", "C11names", "C11frame", "C11twin"}
+CLAUSES = {"C11incons", "C11window", "C11names", "C11frame", "C11twin", "C11after"}
 FLAGS = ((1, 0), (0, 0))
 
 
